@@ -14,6 +14,7 @@ import (
 	"gitlab.com/yawning/obfs4.git/internal/zzverif/rnd"
 	"gitlab.com/yawning/obfs4.git/internal/zzverif/sched"
 	"gitlab.com/yawning/obfs4.git/internal/zzverif/wire"
+	"gitlab.com/yawning/obfs4.git/transports/obfs4"
 )
 
 func fail(c *mc.Ctx, oracle, key, format string, a ...any) {
@@ -361,6 +362,89 @@ func nearTarget(name string, iat int, bias bool, seedNo int, seed int64) mc.Scen
 	}
 }
 
+// ---- variant D: seed adoption while the writer samples -----------------------------
+// The client's reader thread processes the server's PRNG-seed packet (which
+// re-seeds the length distribution) while its writer thread samples that
+// distribution; the distribution code is instrumented at statement
+// granularity, so every interleaving of the two critical sections with at
+// most b preemptions is explored.  Every sample must come from the old or the
+// new table, nothing may panic, and afterwards the table is the bridge's.
+
+func seedAdoption(name string, iat int, bias bool, seedNo int, bound int, seed int64) mc.Scenario {
+	return mc.Scenario{
+		Name:   name,
+		Params: map[string]any{"iat": iat, "bias": bias, "seed": seedNo},
+		Bound:  bound,
+		Weight: 400,
+		Run: func(c *mc.Ctx) {
+			br := o4h.NewBridge(seed, fmt.Sprint("c01/", seedNo), iat, bias)
+			o4h.SetBias(bias)
+			rnd.Install(rnd.New(seed, "c01-"+name))
+			refRnd := rnd.New(seed, "c01-ref-"+name)
+			want := ref.NewDist(br.Seed, 0, 1448, bias)
+			cw, sw := wire.Pipe("client", "server")
+			var dialErr, refErr, rdErr error
+			var samples []int
+			var before, after []int
+			res := sched.Run(c, sched.Options{PreemptKinds: []string{"stmt", "lock"}, NoEarlyTimers: true, MaxSteps: 2_000_000}, func() {
+				s := sched.Cur()
+				var rs *o4h.RefSession
+				s.Spawn("ref-server", func() {
+					rs, refErr = o4h.RefServer(sw, br.ID, o4h.ServerOpts{PadLen: 4, LenSeed: br.Seed, WithData: []byte("x")}, refRnd)
+					_ = rs
+				})
+				conn, err := o4h.Dial(br.ClientArgs("cert", nil), cw)
+				dialErr = err
+				if err != nil {
+					return
+				}
+				before, _, _ = obfs4.VerifDists(conn)
+				ld := obfs4.VerifLenDist(conn)
+				done := false
+				s.Spawn("client-reader", func() {
+					b := make([]byte, 8)
+					_, rdErr = conn.Read(b) // decodes the seed packet, then the byte of payload
+					done = true
+				})
+				for i := 0; i < 2; i++ {
+					samples = append(samples, ld.Sample())
+				}
+				s.Point("join", func() bool { return done })
+				after, _, _ = obfs4.VerifDists(conn)
+			})
+			if len(res.Panics) > 0 {
+				fail(c, "no-panic", "seed-adoption/panic", "%s", res.Panics[0])
+				return
+			}
+			c.Observe("samples", fmt.Sprint(samples, len(before), len(after)))
+			if dialErr != nil || refErr != nil || rdErr != nil {
+				fail(c, "io-error", "seed-adoption/io-error", "Dial=%v ref=%v read=%v", dialErr, refErr, rdErr)
+				return
+			}
+			if res.Quiescent || res.Livelock {
+				fail(c, "delivery", "seed-adoption/stuck", "threads never finished: %+v", res.Blocked)
+				return
+			}
+			in := func(xs []int, v int) bool {
+				for _, x := range xs {
+					if x == v {
+						return true
+					}
+				}
+				return false
+			}
+			for _, v := range samples {
+				if !in(before, v) && !in(after, v) {
+					fail(c, "sample", "seed-adoption/mixed-table", "a sample taken while the seed was being adopted is %d: neither in the client's own table nor in the bridge's", v)
+				}
+			}
+			if fmt.Sprint(after) != fmt.Sprint(want.Abs()) {
+				fail(c, "sample", "seed-adoption/table", "after adopting the seed the length table differs from the reference table of the bridge seed")
+			}
+		},
+	}
+}
+
 func main() {
 	mc.Main("C01", func(cfg *mc.Config, emit func(mc.Scenario)) {
 		scripts := []script{
@@ -405,6 +489,9 @@ func main() {
 					emit(nearTarget(fmt.Sprintf("near-target/iat%d/bias=%v/seed%d", iat, bias, sd), iat, bias, sd, cfg.Seed))
 				}
 			}
+		}
+		for _, bias := range []bool{false, true} {
+			emit(seedAdoption(fmt.Sprintf("seed-adoption/bias=%v", bias), 0, bias, 0, b, cfg.Seed))
 		}
 		// reference server: handshake + payload coalesced, boundary splits
 		for iat := 0; iat <= 2; iat++ {
